@@ -229,6 +229,8 @@ def canon_field(k, v):
     input stays distinguished because it terminates the sequence)"""
     if k in ('seq', 'trace'):
         return _ERRITEM.sub(lambda m: m.group(1) + '*', v)
+    if k in ('dec', 'struct') and v.startswith('err'):
+        return 'err'
     return v
 
 def ints(s):
